@@ -1,8 +1,11 @@
 """C08 — MeshGL export and re-import is lossless.
 proof (index/run/tangent structure of export and import) + field-wise
 round-trip comparison of the real export of the real re-import."""
-import os, random, re
+import os, random, re, sys
 import vp
+
+sys.path.insert(0, os.path.join(vp.ROOT, "translate"))
+import c09_ladder
 
 LEVEL = "proof"
 META = {
@@ -12,8 +15,8 @@ META = {
     "text": "Theorems: merge_vectors_restore (the duplication loop's merge vectors send every exported corner to an injective representative of "
             "its position vertex, for all corner sequences), runs_roundtrip (per-triangle originalID/run transform/flags/faceID are unchanged by "
             "export-import-export, all Impls and start IDs), roundtrip_tangent_refuted (the pinned exporter permutes triangles but not tangents; "
-            "witness replayed on the real code) and roundtrip_tangent_fixed for the proposed fix. Tie: programs producing multi-run meshes, "
-            "instances, back-side runs, property seams, normals, tangents; m2 = Manifold(m.GetMeshGL64()); the two exports are compared as "
+            "witness replayed on the real code) and roundtrip_tangent_fixed for the fixed exporter, runs_roundtrip_with_empty_runs (trailing runs without triangles come back with the same attributes in order), export_tables_accepted (no run-table rung of the importer's ladder - table regenerated from src/impl.h - fires on a table the exporter emits). Tie: programs producing multi-run meshes, "
+            "instances, back-side runs, empty runs (operands contributing no face), property seams, normals, tangents; m2 = Manifold(m.GetMeshGL64()); the two exports are compared as "
             "canonical per-triangle records of bit patterns (positions, triangle set, run attributes, faceID, per-corner properties, per-edge "
             "tangents), plus status, tolerance, Refine(2), merge vectors alone, Merge() after stripping, the float path and OBJ text.",
     "note": "Narrower than the property text: the Coq model covers export/import index handling only (numeric payloads are abstract identifiers; "
@@ -21,7 +24,7 @@ META = {
             "and the OBJ codec have no theorem. Normal channels are skipped in the bit comparison when the run carries the hasNormals flag.",
 }
 
-FIELDS = ["positions", "triangles", "runs_ok", "faceid", "props_ok", "tangent", "tangent_len", "tol", "refine_same",
+FIELDS = ["positions", "triangles", "runs_ok", "empty_runs_ok", "numruns", "faceid", "props_ok", "tangent", "tangent_len", "tol", "refine_same",
           "merged_manifold", "merge_rederived", "f32_positions", "f32_tris", "obj_struct"]
 KEY = {"tangent": "tangent-order-lost", "refine_same": "tangent-order-lost"}
 
@@ -42,19 +45,40 @@ def run(cx):
         "the Coq model abstracts numeric payloads to identifiers and covers export (run sort, property-vertex duplication, tangent copy) and the "
         "import's merge map / run->triRef assignment; the rest of the import pipeline is only exercised by the harness",
         "normal channels (runs flagged hasNormals) are not compared bit-for-bit (renormalisation rounding is allowed by the property)",
-        "programs are drawn from 16 templates with random offsets; meshes of a few hundred triangles",
+        "programs are drawn from 21 templates with random offsets; meshes of a few hundred triangles",
     ]
-    cx.prove()
+    # the importer's rung table, regenerated from src/impl.h (shared with C09): theorem export_tables_accepted
+    # needs it to contain no rung that rejects a run table the exporter can emit
+    gen = os.path.join(vp.COQ, "Gen")
+    translate_ok = True
+    try:
+        c09_ladder.emit(c09_ladder.translate(vp.REPO), os.path.join(gen, "Ladder.v"))
+    except Exception as e:
+        translate_ok = False
+        cx.broke("translate:c09_ladder", "the ingest constructor is no longer recognised: %s" % str(e)[:500])
+        with open(os.path.join(gen, "Ladder.v"), "w") as f:
+            f.write("(* FALLBACK: translation failed; reference (patched) table *)\nFrom MV Require Import Codec.IngestDefs.\n"
+                    "Definition table : list item := patched_table.\n")
+    for ext in (".vo", ".glob", ".vos", ".vok"):
+        try:
+            os.remove(os.path.join(vp.COQ, "Codec", "ExportIngestEval" + ext))
+        except OSError:
+            pass
+    cx.prove(extra_targets=["Codec/ExportIngestEval.vo"])
+    log = open(os.path.join(vp.BUILD, "logs", "coq_C08.log")).read()
+    m = re.search(r"accepts_export_current\s*=\s*(true|false)", log)
+    accepts = (m.group(1) == "true") if m else None
+    cx.cov["accepts_export_tables(Gen.Ladder.table)"] = accepts
     exe = vp.build_harness("c08_roundtrip", "seq", link_lib=True)
     rng = random.Random(cx.seed * 8191 + 8)
     n = cx.pick(300, 6000)
-    lines = ["C %d %d %d" % (i, i if i < 32 else rng.randrange(16), rng.randrange(1 << 30)) for i in range(n)]
+    lines = ["C %d %d %d" % (i, i if i < 32 else rng.randrange(21), rng.randrange(1 << 30)) for i in range(n)]
     kl = lambda l: l.split()[1]
     ko = lambda l: l.split()[1] if l.startswith("C ") else None
     out, crashes = vp.run_cases(exe, lines, kl, ko, timeout=1500, max_restarts=4)
     for cl, rc, err in crashes:
         cx.violation("roundtrip-crash", "round trip program crashed (rc=%s): %s" % (rc, err[-200:]), {"case": cl})
-    dist = {"multi_run": 0, "props": 0, "tangents": 0, "merges": 0, "skipped": 0}
+    dist = {"multi_run": 0, "props": 0, "tangents": 0, "merges": 0, "empty_runs": 0, "skipped": 0}
     nontriv, seen = 0, set()
     obj_lossy = obj_other = 0
     per_field_fail = {}
@@ -70,14 +94,19 @@ def run(cx):
         dist["props"] += d["props"] > 0
         dist["tangents"] += d["tangents"]
         dist["merges"] += d["merges"] > 0
+        dist["empty_runs"] += d.get("empties", 0) > 0
         sig = (d["prog"], d["tris"], d["runs"], d["merges"])
         if sig not in seen:
             seen.add(sig)
-            if d["runs"] >= 2 or d["merges"] > 0 or d["tangents"]:
+            if d["runs"] >= 2 or d["merges"] > 0 or d["tangents"] or d.get("empties", 0):
                 nontriv += 1
         case = lines[int(cid)]
         if d.get("st2", 0) != 0:
-            if d.get("tan_nonfinite", 0) > 0 and d["st2"] == 11:
+            if d.get("empties", 0) > 0 and d["st2"] == 9:
+                cx.violation("empty-run-rejected",
+                             "the export of a NoError Manifold has %d run(s) without triangles (an operand that contributed no face) and is "
+                             "rejected on re-import with RunIndexWrongLength" % d["empties"], {"case": case, "program": d["prog"], "line": l})
+            elif d.get("tan_nonfinite", 0) > 0 and d["st2"] == 11:
                 cx.violation("nonfinite-tangent-export",
                              "a NoError Manifold exports %d non-finite tangent values (SmoothOut on sharp geometry); its own export is rejected on "
                              "re-import with InvalidConstruction while the original refines with status %d" % (d["tan_nonfinite"], d["refine_st1"]),
@@ -110,8 +139,17 @@ def run(cx):
                 obj_other += 1
                 cx.violation("obj-lossy", "WriteOBJ/ReadOBJ changed %d coordinates, %d of them with |x| >= 1e-3" % (d["obj_differ"], d["obj_differ"] - d["obj_differ_small"]),
                              {"case": case, "line": l})
+    # obligation of theorem export_tables_accepted on the regenerated table
+    cx.obligations += 1
+    if accepts and translate_ok:
+        cx.discharged += 1
+    elif translate_ok:
+        if not any(k == "empty-run-rejected" for k, _, _ in cx.violations):
+            cx.broke("obligation:accepts_export_tables", "Gen.Ladder.table contains a rung that rejects run tables the exporter emits "
+                     "(or the evaluation did not run: %r) and no concrete program was found" % accepts)
+        cx.notes.append("accepts_export_tables Gen.Ladder.table = %r" % accepts)
     cx.cov.update({"evaluations": n, "distinct_nontrivial": nontriv,
-                   "rule": "seeded programs from 16 templates; non-trivial = >= 2 runs or merge vectors (property seam) or tangents; distinct by (template, triangles, runs, merges)",
+                   "rule": "seeded programs from 21 templates; non-trivial = >= 2 runs or merge vectors (property seam) or tangents or empty runs; distinct by (template, triangles, runs, merges)",
                    "distribution": dist, "fields_compared": FIELDS, "field_failures": per_field_fail,
                    "obj_roundtrips_lossy_below_1e-3": obj_lossy, "obj_roundtrips_lossy_other": obj_other})
     for l in out.splitlines()[:3]:
